@@ -1014,6 +1014,12 @@ func TestReplay(t *testing.T) {
 	if !ok {
 		t.Skip("no replay file")
 	}
+	if doc.Check == "roleflip" {
+		c := ev.New("C15", "replay", "exploration")
+		t.Cleanup(c.Flush)
+		replayFlips(t, c, doc.Data)
+		return
+	}
 	var cell cellReplay
 	if err := json.Unmarshal(doc.Data, &cell); err != nil {
 		t.Fatalf("bad replay data: %v", err)
